@@ -2,7 +2,7 @@
 import random
 from propdefs import bfs
 
-N_DOCS = 18
+N_DOCS = 19
 GOOD_URLS = [1, 2, 3, 4]
 ODD_URLS = [5, 6, 7, 8, 9, 10, 11, 12, 13]
 
@@ -68,7 +68,8 @@ def c11_groups(cases, ctx):
     for rep in range(reps):
         for d in range(N_DOCS):
             url = GOOD_URLS[(d + rep) % len(GOOD_URLS)]
-            others = rnd.sample([x for x in range(N_DOCS) if x != d], 4)
+            me = d + N_DOCS * rep
+            others = rnd.sample([x for x in range(N_DOCS * reps) if x != me], 3) + [d + N_DOCS * ((rep + 1) % reps)]
             hist = []
             for o in rnd.sample(base, 2):
                 hist += [step(o, "apply", url)] * 8 + [step(o, "reader", url)] * 2 + [step(o, "file", url)]
@@ -77,7 +78,7 @@ def c11_groups(cases, ctx):
             # the group's own document first and last, so that every other document lies in between
             o = base[0]
             hist = [step(o, "apply", url)] + hist + [step(o, "apply", url)]
-            out.append(dict(p=dict(doc=d, root="document", hist=hist)))
+            out.append(dict(p=dict(doc=me, root="document", hist=hist)))
     return out
 
 
@@ -173,7 +174,7 @@ PROPS = {
                 rule="cases = groups: one document through many option tuples (all 16 log sets x algo x skip x url, from the TLC model); "
                      "non-trivial = calls that returned a result",
                 nontrivial_key="returned_result", assumptions=ASSUME, exhaustive_tiers=()),
-    "C11": dict(stages=[stage(c11_groups, 150, 1000)],
+    "C11": dict(stages=[dict(stage(c11_groups, 150, 1000), two_orders=True)],
                 rule="cases = groups: identical calls repeated, Apply vs ApplyForReader vs ApplyForFile on the same bytes, shuffled with other calls; "
                      "non-trivial = calls that returned a result",
                 nontrivial_key="returned_result", assumptions=ASSUME, exhaustive_tiers=()),
